@@ -245,6 +245,26 @@ pub fn apply(doc: &mut Vec<u8>, f: RestFault, rng: &mut Rng, other: &[u8]) -> bo
             let mut enc = String::new();
             crate::zoo::vlq(&mut enc, v);
             if rng.chance(1, 4) {
+                // raw digits rather than an encoded value: the longest legal continuation run
+                // (12 continuation digits + a final digit of any value, i.e. up to 65 payload
+                // bits) or one digit more than that
+                enc.clear();
+                if rng.chance(1, 2) {
+                    // all payload bits set: the largest magnitudes a 13-digit run can carry,
+                    // with every value of the final (most significant) digit that matters
+                    enc.push(*rng.pick(&['+', '/']));
+                    for _ in 0..11 {
+                        enc.push('/');
+                    }
+                    enc.push(*rng.pick(&['P', 'H', 'I', 'Q', 'f', 'A', 'O', 'D']));
+                } else {
+                    let n = if rng.chance(1, 5) { 13 } else { 12 };
+                    for _ in 0..n {
+                        enc.push(B64[32 + if rng.chance(2, 3) { 31 } else { rng.below_usize(32) }] as char);
+                    }
+                    enc.push(B64[rng.below_usize(32)] as char);
+                }
+            } else if rng.chance(1, 4) {
                 // repeated: two one-field segments with the same huge value in front, so that the
                 // generated-column running sum takes several same-sign steps on one line
                 let huge = if rng.chance(1, 2) { 1i64 << 62 } else { -(1i64 << 62) };
